@@ -831,7 +831,7 @@ func (p *CodeBuilder) toBoundArrayLen(elts []*internal.Elem, arity, limit int) i
 
 func (p *CodeBuilder) toIntVal(v *internal.Elem, msg string) int {
 	if cval := v.CVal; cval != nil && cval.Kind() == constant.Int {
-		if v, ok := constant.Int64Val(cval); ok {
+		if v, ok := constant.Int64Val(cval); ok && v >= 0 {
 			return int(v)
 		}
 	}
